@@ -68,7 +68,7 @@ Print Assumptions C02_complete_at_most_once_prefix_refuted.
 (* the same histories on the repaired machine *)
 Example C02_hang_fixed :
   exists s c, srun live_session (issue_and_write ++ [EFrame (FrReply 0 FErr0); EReader true; EReader true; EReader true;
-                      EConnLost] ++ repeat (EReader true) 8) = Some s /\
+                      EConnLost] ++ repeat (EReader true) 9) = Some s /\
               terminal s = true /\ nth_error (calls s) 0 = Some c /\ c_dones c = 1 /\ c_stat c = StBadMsg /\ rd s = RDone.
 Proof. exact hang_fixed. Qed.
 
